@@ -17,6 +17,8 @@ type Prog struct {
 	testImps  map[string]bool
 	Extra     map[string]string // additional files (path -> content)
 	WithRapid bool
+	// SplitCalls > 1 spreads the call sites over that many files of package p (calls.go, calls_1.go, ...).
+	SplitCalls int
 }
 
 // NewProg starts a program over an environment.
@@ -271,7 +273,36 @@ func (p *Prog) Files() map[string]string {
 		// the external test package of p: no derive calls, lives in p's directory
 		files["p/x_test.go"] = "package p_test\n\nimport \"testing\"\n\nfunc TestX(t *testing.T) {}\n"
 	}
-	files["p/calls.go"] = gofmt("package p\n\n" + p.importBlock(p.callImps) + strings.Join(p.calls, "\n"))
+	if p.SplitCalls > 1 && len(p.calls) > 1 {
+		// the call sites are spread over several files of the package; each file imports what its own text mentions
+		parts := make([][]string, p.SplitCalls)
+		for i, c := range p.calls {
+			parts[i%p.SplitCalls] = append(parts[i%p.SplitCalls], c)
+		}
+		for i, part := range parts {
+			if len(part) == 0 {
+				continue
+			}
+			text := strings.Join(part, "\n")
+			imps := map[string]bool{}
+			for k := range p.callImps {
+				name := k[strings.LastIndex(k, "/")+1:]
+				if strings.HasPrefix(k, "ext:") {
+					name = p.Alias[k[4:]]
+				}
+				if strings.Contains(text, name+".") {
+					imps[k] = true
+				}
+			}
+			fn := "p/calls.go"
+			if i > 0 {
+				fn = fmt.Sprintf("p/calls_%d.go", i)
+			}
+			files[fn] = gofmt("package p\n\n" + p.importBlock(imps) + text)
+		}
+	} else {
+		files["p/calls.go"] = gofmt("package p\n\n" + p.importBlock(p.callImps) + strings.Join(p.calls, "\n"))
+	}
 	if len(p.tests) > 0 {
 		files["p/more_test.go"] = gofmt("package p\n\n" + p.importBlock(p.testImps) + strings.Join(p.tests, "\n"))
 	}
